@@ -167,7 +167,7 @@ theorem numberL_ids : ∀ (ks : List Node) (n : Nat),
     rw [h2] at h3 ⊢
     refine ⟨?_, by omega⟩
     have := @List.range'_append n (number k n).1.size (sizeL (numberL ks (n + (number k n).1.size)).1) 1
-    simpa using this
+    simp
 end
 
 /-! ### (2) `Dom.DN`: embed the plain attribute list, forget the cached fields -/
